@@ -36,7 +36,7 @@ def gen_actions(rng, market, name, mix):
                 ref = {"live": k} if rng.random() < 0.8 else rng.choice([-1, -2])
                 a = {"op": kind, "order": ref}
                 if kind == "cancel" and rng.random() < 0.3:
-                    a["red"] = rng.choice([0.5, 1.0, 1.5])
+                    a["red"] = rng.choice([0.5, 1.0, 1.5, "f0.5", "f0.6", "f0.8"])
                 if kind == "update":
                     a["pt"] = rng.choice(["PERSIST", "LAPSE", "MARKET_ON_CLOSE"])
                 if kind == "replace":
